@@ -386,6 +386,8 @@ struct Tl {
 	t: f64,
 	/// (time of the frame, left)
 	out: Vec<(f64, f32)>,
+	/// right channel of the same frames
+	out_r: Vec<f32>,
 	change_at: Option<(f64, u32)>,
 	/// time at which the planned change was really applied (a callback boundary)
 	changed_at: Option<f64>,
@@ -394,7 +396,7 @@ struct Tl {
 
 impl Tl {
 	fn new(rig: Rig, change_at: Option<(f64, u32)>, seed: u64) -> Tl {
-		Tl { rig, t: 0.0, out: vec![], change_at, changed_at: None, sizes_seed: Rng::new(seed) }
+		Tl { rig, t: 0.0, out: vec![], out_r: vec![], change_at, changed_at: None, sizes_seed: Rng::new(seed) }
 	}
 	fn rate(&self) -> u32 {
 		self.rig.cfg.sample_rate
@@ -406,6 +408,7 @@ impl Tl {
 		let b = self.rig.callback(n);
 		for (k, f) in b.chunks(2).enumerate() {
 			self.out.push((t0 + k as f64 / sr, f[0]));
+			self.out_r.push(f[1]);
 		}
 		self.t = t0 + n as f64 / sr;
 	}
@@ -727,6 +730,31 @@ fn s_filter(r: &mut Rng, c: &Cell) -> Result<(), String> {
 	Ok(())
 }
 
+/// S6: the reverb's first reflections arrive after the same number of seconds at every device rate, in both channels
+/// (Freeverb: shortest comb 1116 samples at 44.1 kHz on the left, 1116 + 23 on the right)
+fn s_reverb(r: &mut Rng, c: &Cell) -> Result<(), String> {
+	use kira::effect::reverb::ReverbBuilder;
+	let change_first = c.r2.is_some() && r.chance(0.5);
+	let rate = if change_first { c.r2.unwrap() } else { c.r1 };
+	let mut rig = Rig::new(RigConfig { sample_rate: c.r1, ibs: c.ibs, ..Default::default() }, MainTrackBuilder::new().with_effect(ReverbBuilder::new().mix(Mix::WET).feedback(0.5).damping(0.5).stereo_width(1.0)));
+	rig.callback(c.ibs + 1);
+	if change_first {
+		rig.change_sample_rate(rate);
+		rig.callback(c.ibs);
+	}
+	let _h = rig.mgr.play(crate::probes::dc_sound(48000, 48, 0.5)).map_err(|_| "play")?;
+	let mut tl = Tl::new(rig, None, r.next());
+	tl.run_until(0.034);
+	let tl_l = tl.out.iter().find(|x| x.1.abs() > 1e-7).map(|x| x.0);
+	let tl_r = tl.out.iter().zip(tl.out_r.iter()).find(|(_, b)| b.abs() > 1e-7).map(|(a, _)| a.0);
+	let tol = 4.5 / rate as f64;
+	let (want_l, want_r) = (1116.0 / 44100.0, (1116.0 + 23.0) / 44100.0);
+	match (tl_l, tl_r) {
+		(Some(a), Some(b)) if (a - want_l).abs() <= tol && (b - want_r).abs() <= tol => Ok(()),
+		other => Err(format!("reverb at {} Hz{}: first reflection expected after {:.5} s (left) and {:.5} s (right) at every device rate, observed {:?}", rate, if change_first { format!(" (after a change from {} Hz)", c.r1) } else { String::new() }, want_l, want_r, other)),
+	}
+}
+
 // ---------------------------------------------------------------- driver
 
 const ADD_CHANGE_KEY: &str = "C16.track_added_before_rate_change_picked_up_after";
@@ -810,7 +838,7 @@ pub fn run(ctx: &mut Ctx) {
 	race_all(ctx);
 	// (B) measurements
 	let n = ctx.t(6_000u64, 2_000_000u64);
-	let mut measured = [0u64; 5];
+	let mut measured = [0u64; 6];
 	for i in 0..n {
 		if !ctx.owns("meas", i) {
 			continue;
@@ -828,7 +856,8 @@ pub fn run(ctx: &mut Ctx) {
 			0 => s_duration_pitch(&mut r, &c),
 			1 => s_clock(&mut r, &c),
 			2 => s_tween(&mut r, &c),
-			3 | 4 | 5 | 6 => s_delay(&mut r, &c),
+			3 | 4 | 5 => s_delay(&mut r, &c),
+			6 => s_reverb(&mut r, &c),
 			_ => s_filter(&mut r, &c),
 		});
 		crate::monitors::clear_current();
@@ -836,7 +865,8 @@ pub fn run(ctx: &mut Ctx) {
 			0 => 0,
 			1 => 1,
 			2 => 2,
-			3..=6 => 3,
+			3..=5 => 3,
+			6 => 5,
 			_ => 4,
 		};
 		match res {
@@ -854,7 +884,7 @@ pub fn run(ctx: &mut Ctx) {
 			Err(p) => ctx.violation("meas", i, &format!("panic: {}", p.first().map(|p| p.sig()).unwrap_or_default()), J::Null),
 		}
 	}
-	for (k, name) in ["duration_and_pitch", "clock_scheduled_start", "tween_duration", "delay_echo_time", "filter_gain_at_cutoff"].iter().enumerate() {
+	for (k, name) in ["duration_and_pitch", "clock_scheduled_start", "tween_duration", "delay_echo_time", "filter_gain_at_cutoff", "reverb_first_reflection_time"].iter().enumerate() {
 		ctx.count(&format!("measured_{}", name), measured[k]);
 	}
 	ctx.sample(jobj! {"monitor" => "rate-in-force probe + seconds/hertz measurements", "rates" => J::A(RATES.iter().map(|x| J::F(*x as f64)).collect()), "history_alphabet" => J::A(OP_NAMES.iter().map(|x| J::S(x.to_string())).collect())});
